@@ -8,6 +8,7 @@
 use std::{
     fmt,
     hash::Hash,
+    mem::ManuallyDrop,
     ops,
     sync::{Arc, PoisonError, TryLockError, TryLockResult, Weak},
 };
@@ -38,8 +39,8 @@ use crate::{lock::Lock, state::ObservableState, ObservableReadGuard, Subscriber,
 pub struct SharedObservable<T, L: Lock = SyncLock> {
     state: Arc<L::RwLock<ObservableState<T>>>,
     /// Ugly hack to track the amount of clones of this observable,
-    /// *excluding subscribers*.
-    _num_clones: Arc<()>,
+    /// *excluding subscribers*. Only taken out (and released) in `Drop`.
+    _num_clones: ManuallyDrop<Arc<()>>,
 }
 
 impl<T> SharedObservable<T> {
@@ -336,7 +337,7 @@ impl<T: Send + Sync + 'static> SharedObservable<T, AsyncLock> {
 
 impl<T, L: Lock> SharedObservable<T, L> {
     pub(crate) fn from_inner(state: Arc<L::RwLock<ObservableState<T>>>) -> Self {
-        Self { state, _num_clones: Arc::new(()) }
+        Self { state, _num_clones: ManuallyDrop::new(Arc::new(())) }
     }
 
     /// Get the number of `SharedObservable` clones.
@@ -426,22 +427,20 @@ where
 
 impl<T, L: Lock> Drop for SharedObservable<T, L> {
     fn drop(&mut self) {
+        // SAFETY: `_num_clones` is not accessed again after this.
+        let num_clones = unsafe { ManuallyDrop::take(&mut self._num_clones) };
+
         // Only close the state if there are no other clones of this
-        // `SharedObservable`.
+        // `SharedObservable`. `Arc::into_inner` returns `Some` for exactly one
+        // of the clones, the one that is released last, even if several of
+        // them are dropped at the same time on different threads; and once it
+        // has returned `Some`, a `WeakObservable` can't be upgraded anymore.
+        let is_last = Arc::into_inner(num_clones).is_some();
         #[cfg(eyeball_verif)]
-        let mut paused = false;
-        if Arc::strong_count(&self._num_clones) == 1 {
-            #[cfg(eyeball_verif)]
-            {
-                crate::verif::pause("drop_decided");
-                paused = true;
-            }
+        crate::verif::pause("drop_decided");
+        if is_last {
             // If there are no other clones, obtaining a read lock can't fail.
             L::read_noblock(&self.state).close();
-        }
-        #[cfg(eyeball_verif)]
-        if !paused {
-            crate::verif::pause("drop_decided");
         }
     }
 }
@@ -467,7 +466,7 @@ impl<T, L: Lock> WeakObservable<T, L> {
         #[cfg(eyeball_verif)]
         crate::verif::pause("upgrade_between");
         let _num_clones = Weak::upgrade(&self._num_clones)?;
-        Some(SharedObservable { state, _num_clones })
+        Some(SharedObservable { state, _num_clones: ManuallyDrop::new(_num_clones) })
     }
 }
 
